@@ -146,11 +146,68 @@ def gen_wild_corpus():
                            "_kind": inj["kind"], "_inj": inj, "_orig": tree}
 
 
+# classes whose Wildcard / Attributes fields carry NO namespace metadata (or ##local / an empty one): such a field takes the
+# names without a namespace only (a Wildcard field first inherits the namespace of its class), so namespace-qualified unknown
+# content next to them is unknown and has to obey the fail_on_* options.  Generated universes always spell ##any/##other/...
+def _bare_desc(class_ns, wild_ns, attrs_ns, single):
+    def md(typ, ns):
+        return {"type": typ} if ns is None else {"type": typ, "namespace": ns}
+
+    item = {"name": "Item", "fields": [
+        {"name": "name", "type": {"opt": "str"}, "metadata": {"type": "Element"}, "default": {"value": None}},
+        _afield("code", "int"),
+        {"name": "extra", "type": {"dict": 1}, "metadata": md("Attributes", attrs_ns), "default": {"factory": "dict"}}]}
+    wild = ({"name": "rest", "type": {"opt": "object"}, "metadata": md("Wildcard", wild_ns), "default": {"value": None}} if single else
+            {"name": "rest", "type": {"list": "object"}, "metadata": md("Wildcard", wild_ns), "default": {"factory": "list"}})
+    root = {"name": "Root", "fields": [
+        {"name": "label", "type": {"opt": "str"}, "metadata": {"type": "Element"}, "default": {"value": None}},
+        {"name": "item", "type": {"opt": {"cls": "Item"}}, "metadata": {"type": "Element"}, "default": {"value": None}},
+        _afield("k", "int"), wild]}
+    if class_ns:
+        root["meta"] = {"namespace": class_ns}
+    return {"classes": [item, root]}
+
+
+BARE_DESCS = [
+    (None, _bare_desc(None, None, None, False)),       # the demo's shape: nothing declared anywhere
+    (None, _bare_desc(None, None, None, True)),
+    (None, _bare_desc(None, "", "", False)),           # an empty namespace string
+    (None, _bare_desc(None, "##local", "##local", False)),
+    ("urn:t", _bare_desc("urn:t", None, None, False)),  # the Wildcard field inherits urn:t, the Attributes field nothing
+    ("urn:t", _bare_desc("urn:t", "##local", None, True)),
+]
+
+
+def _bare_docs(ns):
+    q = (lambda n: "{%s}%s" % (ns, n)) if ns else (lambda n: n)
+    free = q("free") if ns else "free"
+    return [
+        _n(q("Root"), [("k", "3")], None, [_n(q("label"), [], "a"), _n(q("item"), [("code", "7"), ("local", "x")], None, [_n(q("name"), [], "n")]), _n(free, [("z", "1")], "1")]),
+        _n(q("Root"), [], None, [_n(q("item"), [("code", "7")]), _n(q("label"), [], "b")]),
+    ]
+
+
+def gen_bare_corpus(rng, limit=90):
+    for ns, desc in BARE_DESCS:
+        u = uni_of({"desc": desc})
+        ctx = u.export_ctx()
+        for k, tree in enumerate(_bare_docs(ns)):
+            if ns == "urn:t" and desc["classes"][1]["fields"][3]["metadata"].get("namespace") == "##local":
+                tree = copy.deepcopy(tree)
+                tree["c"] = [c for c in tree["c"] if not c["q"].endswith("free")] + ([_n("free", [], "1")] if k == 0 else [])
+            combos = [(inj, cfg) for inj in injection_points(tree) if inj["kind"] in ("element", "attr", "xsi-attr") for cfg in L.CFG8]
+            combos = stratified(rng, combos, L.desc_labels(desc, "Root", tree)[0], limit)
+            for inj, cfg in combos:
+                yield {"ctx": ctx, "tree": apply_injection(tree, inj), "clazz": "Root", "config": cfg, "desc": desc, "_uni": u.modname,
+                       "_kind": "bare:" + inj["kind"], "_inj": inj, "_orig": tree}
+
+
 def gen_inject(rng, tier):
     yield from gen_wild_corpus()
+    yield from gen_bare_corpus(random.Random(rng.random()), 40 if tier == "quick" else 400)
     n_uni = n_cases(tier, 9, 20)
     full_docs = n_cases(tier, 2, 12)
-    per_doc = n_cases(tier, 60, 100)
+    per_doc = n_cases(tier, 50, 100)
     ndoc = 0
     for feats in FEATURE_SETS:
         for _ in range(n_uni):
@@ -362,8 +419,8 @@ def check_injection(a, routes=L.ROUTES):
         where = f"[{route}, cfg={L.cfg_key(cfg)}, parent={lab[0]}:{lab[1] if len(lab) > 1 else ''}{', inside a union element' if in_union else ''}]"
         if kind == "element":
             if lab[0] in ("element", "wrapper"):
-                if L.declares_wildcard(desc, lab[1]):
-                    continue  # a wildcard field may take the element: not an unknown property
+                if L.wildcard_takes(desc, lab[1], lab[2], inj["sub"]["q"]) is not False:
+                    continue  # a wildcard field takes the element (or the constraint does not settle it): not an unknown property
                 if not cfg["fail_on_unknown_properties"]:
                     if not _same(r0, r1):
                         return f"{where} lenient: unknown <{inj['sub']['q']}> ({inj['shape']}) at child position {inj['pos']} changed the result: {_short(r0)} -> {_short(r1)}"
@@ -380,15 +437,15 @@ def check_injection(a, routes=L.ROUTES):
                     return f"{where} child element inside a simple-typed element did not raise XmlContextError: {_short(r1)}"
         elif kind == "xsi-attr":
             if lab[0] in ("element", "primitive") and inj["q"] not in [k for k, _ in G.tree_at(orig, inj["path"])["a"]]:
-                if lab[0] == "element" and (L.declares_any_attributes(desc, lab[1])):
-                    continue
+                if lab[0] == "element" and L.attributes_take(desc, lab[1], lab[2], inj["q"]) is not False:
+                    continue  # an Attributes field takes it
                 if not _same(r0, r1):
                     return f"{where} xsi attribute {inj['q']} is not tolerated / changes the result [wild={lab[0] == 'element' and L.declares_wildcard(desc, lab[1])}]: {_short(r0)} -> {_short(r1)}"
         elif kind == "attr":
             if inj["q"] in [k for k, _ in G.tree_at(orig, inj["path"])["a"]]:
                 continue
             if lab[0] == "element":
-                if L.declares_any_attributes(desc, lab[1]):
+                if L.attributes_take(desc, lab[1], lab[2], inj["q"]) is not False:
                     continue  # an Attributes field takes it
                 if not cfg["fail_on_unknown_attributes"]:
                     if not _same(r0, r1):
@@ -858,12 +915,24 @@ def impl_unioncfg(a):
     return L.real_unioncfg(a["config"], a["doc"])
 
 
+def gen_matchns(rng, tier):
+    uris = ["urn:t", "urn:c10:unknown", L.XSI, "u"]
+    nss_pool = [[], [""], ["##any"], ["urn:t"], ["!urn:t"], ["!"], ["", "urn:t"], ["urn:t", "!urn:c10:unknown"], ["##any", ""], ["!", ""]]
+    names = ["j", "free"] + ["{%s}%s" % (u, n) for u in uris for n in ("j", "type")] + ["{}j", "{u}"]
+    for nss in nss_pool:
+        for q in names:
+            yield {"namespaces": nss, "qname": q}
+
+
 CORR_PARSE_U = Corr("bind.parse_u", lambda rng, tier: (a for a in gen_union_xml(rng, tier)), impl_parse, compare=cmp_parse,
                     classify=classify_inject, nontrivial=lambda a, o: "_inj" in a,
                     describe="NodeParser(EventsHandler) vs parseRootU (Bind/Union.lean) on the union universes of C10 with every injection kind, "
                              "8 configs: the rebinding of C10-union-strict-attr-rebinds and the strict conversions of the trials included")
 
 CORRS += [
+    Corr("bind.matchns", gen_matchns, lambda a: L.real_match_namespace(a["namespaces"], a["qname"]),
+         describe="XmlVar._match_namespace vs matchNamespace, bounded-exhaustive over namespace lists (empty, ##local, ##any, names, !names) "
+                  "x qualified / unqualified names"),
     CORR_PARSE_U,
     Corr("bind.unioncfg", gen_unioncfg, impl_unioncfg,
          describe="the ParserConfig UnionNode.bind hands to the parsers that replay the recorded events for the candidate classes, and the "
